@@ -40,10 +40,13 @@ def _audit(event, args):
         return
     if event == "open":
         p = str(args[0])
+        fl = args[2] if len(args) > 2 and isinstance(args[2], int) else 0
+        names = [n for bit, n in FLAGNAMES if fl & bit] or ["O_RDONLY"]
         if _AUD["root"] and p.startswith(_AUD["root"]):
-            fl = args[2] if len(args) > 2 and isinstance(args[2], int) else 0
-            names = [n for bit, n in FLAGNAMES if fl & bit] or ["O_RDONLY"]
             _AUD["events"].append({"kind": "open", "path": "OUT" if p == _AUD["out"] else os.path.relpath(p, _AUD["root"]), "flags": names, "phase": _AUD["phase"]})
+        elif names != ["O_RDONLY"] and not p.startswith(("/dev/", "/proc/")):
+            # a file opened for writing anywhere else (temporary copies of evidence included)
+            _AUD["events"].append({"kind": "open", "path": "ELSEWHERE:" + p[:80], "flags": names, "phase": _AUD["phase"]})
     elif event in MUTATORS or event.startswith("os.") and event.split(".")[1] in ("rename", "remove", "unlink", "rmdir", "mkdir", "truncate", "replace", "utime", "chmod"):
         p = str(args[0]) if args else ""
         if _AUD["root"] and (p.startswith(_AUD["root"]) or event.startswith("tempfile")):
@@ -142,16 +145,28 @@ def wl_vmtar(root, rng):
     open(os.path.join(root, "x.vtar"), "wb").write(blob)
     open(os.path.join(root, "x.vgz"), "wb").write(gzip.compress(blob))
 
+    # a gzip-wrapped archive that inflates to more than 16 MiB (then 64 MiB, thorough), opened by path and through a handle
+    big = [{"name": "big", "visor": True, "dir": False, "size": 18 << 20, "inline": False, "slot": 1, "data": bytes(18 << 20), "prefix": ""},
+           {"name": "small", "visor": True, "dir": False, "size": 700, "inline": False, "slot": 2, "data": b"s" * 700, "prefix": ""}]
+    bblob, _ = enc_vmtar.build(big)
+    open(os.path.join(root, "big.vgz"), "wb").write(gzip.compress(bblob, 1))
+
     def go():
-        for fn in ("x.vtar", "x.vgz"):
+        for fn in ("x.vtar", "x.vgz", "big.vgz"):
             t = vmtar.open(os.path.join(root, fn))
             for m in t.getmembers():
-                t.extractfile(m).read()
+                t.extractfile(m).read(4096)
             t.close()
+            with open(os.path.join(root, fn), "rb") as fh:
+                t = vmtar.open(fileobj=fh)
+                for m in t.getmembers():
+                    t.extractfile(m).read(4096)
+                t.close()
     return go
 
 
-def wl_cli(root, rng, fail=False):
+def wl_cli(root, rng, fail=False, out="out.bin"):
+    """out: the -o argument relative to the evidence directory ("." = the directory itself, "sub" = an existing sub-directory)."""
     from dissect.hypervisor.tools import envelope as tool
     import uuid
     d1, d2 = b"1" * 16, b"2" * 16
@@ -166,10 +181,12 @@ def wl_cli(root, rng, fail=False):
     open(os.path.join(root, "e.info"), "w").write(enc_envelope.keystore_text(uuid.UUID(int=7), d1, d2))
     # an innocent neighbour that a careless writer could clobber
     open(os.path.join(root, "out.tmp"), "w").write("neighbour")
+    os.mkdir(os.path.join(root, "sub"))
+    open(os.path.join(root, "sub", "e.ve"), "w").write("another neighbour")
 
     def go():
         argv = sys.argv
-        sys.argv = ["envelope-decrypt", os.path.join(root, "e.ve"), "-ks", os.path.join(root, "e.info"), "-o", os.path.join(root, "out.bin")]
+        sys.argv = ["envelope-decrypt", os.path.join(root, "e.ve"), "-ks", os.path.join(root, "e.info"), "-o", os.path.normpath(os.path.join(root, out))]
         try:
             tool.main()
         except BaseException:  # noqa: BLE001
@@ -405,12 +422,17 @@ def run(ctx):
     tid = 0
     # 1. path-based workloads under the audit hook
     for name, mk, phase in (("vhdx", wl_vhdx, "lib"), ("vmdk", wl_vmdk, "lib"), ("hdd", wl_hdd, "lib"), ("vmtar", wl_vmtar, "lib"),
-                            ("cli-ok", lambda r, g: wl_cli(r, g, False), "cli"), ("cli-fail", lambda r, g: wl_cli(r, g, True), "cli")):
+                            ("cli-ok", lambda r, g: wl_cli(r, g, False), "cli"), ("cli-fail", lambda r, g: wl_cli(r, g, True), "cli"),
+                            ("cli-out-is-evidence-dir", lambda r, g: wl_cli(r, g, False, "."), "cli-dir"),
+                            ("cli-out-is-subdir", lambda r, g: wl_cli(r, g, False, "sub"), "cli-sub"),
+                            ("cli-out-in-new-dir", lambda r, g: wl_cli(r, g, False, "nonexistent/out.bin"), "cli-new")):
         root = tempfile.mkdtemp(prefix="verif-c09-")
+        out_rel = {"cli": "out.bin", "cli-dir": ".", "cli-sub": "sub", "cli-new": "nonexistent/out.bin"}.get(phase)
+        phase = "cli" if phase.startswith("cli") else phase
         try:
             go = mk(root, rng)
             before = tree_hash(root)
-            audit_on(root, phase=phase, out=os.path.join(root, "out.bin") if phase == "cli" else None)
+            audit_on(root, phase=phase, out=os.path.normpath(os.path.join(root, out_rel)) if phase == "cli" else None)
             err = ""
             try:
                 go()
@@ -418,7 +440,7 @@ def run(ctx):
                 err = repr(e)[:200]
             evs = audit_off()
             after = tree_hash(root)
-            evs.append(fs_event(before, after, phase, "out.bin" if phase == "cli" else None))
+            evs.append(fs_event(before, after, phase, out_rel if phase == "cli" else None))
             if err:
                 ctx.violation({"source": "audit", "workload": name, "fail": "workload-raised"}, {"error": err})
             tid += 1
